@@ -191,6 +191,12 @@ func vfC22Case(rep *vk.Report, d *vfDB, dbi, qi, ncfg int, th *Thread) {
 			rep.Count("fixed_non_number_cases", 1)
 		}
 	}
+	if qi%40 == 27 {
+		// a where that is unique only together with a fixed value, looked up through a join
+		if q = vfGenFixedKeyLookupQuery(d, r); q != nil {
+			rep.Count("fixed_key_lookup_cases", 1)
+		}
+	}
 	if q == nil {
 		q = vfGenQuery(d, r, 1+r.IntN(5))
 	}
